@@ -337,6 +337,10 @@ def main():
         sys.path.append(job["verif"])
     out = Out(job["out"])
     t0 = time.time()
+    # hard wall-clock limit of our own (default action of SIGALRM terminates the process, native code
+    # included): an orphaned child must never spin for ever
+    import signal
+    signal.alarm(int(job.get("limit", 1200)))
     mode = job["mode"]
     if mode == "compiled":
         ns = {}
